@@ -15,6 +15,7 @@ Int = z3.IntSort()
 Bool = z3.BoolSort()
 
 xval = z3.Function("xval", Label, Real)           # ghost boolean assignment
+xint = z3.Function("xint", Label, Int)            # the same value as an integer (xval(i) == ToReal(xint(i)))
 bmono = z3.Function("bmono", Key, Real)            # product of xval over the key (with repetitions)
 smono = z3.Function("smono", Key, Real)            # product of zval over the key (with repetitions)
 bsq = z3.Function("bsq", Key, Key)                 # tuple(sorted(set(key), key=ordering_key))
@@ -74,6 +75,7 @@ class Facts:
         self._seen_labels.add(h)
         xv = xval(i)
         self.add(z3.Or(xv == 0, xv == 1))
+        self.add(z3.And(xv == z3.ToReal(xint(i)), xint(i) >= 0, xint(i) <= 1))
         self.used.add("L2-range")
         return i
 
